@@ -729,8 +729,8 @@ def run(ctx: Ctx) -> None:
     check_copy(ctx, t)
     ctx.rule('R7', 'every variable created for a binder IR node (fold/scan accumulator, map/filter/zip element, let/bind value, agg explode, loop parameter) '
                    'is typed, on every path, from the same definition of the value that the emitted node binds to that name; references are rebuilt after a '
-                   're-assignment (coercion / widening) of that value', 35)
-    ctx.rule('R9', 'a Ref built for a bound variable carries the same type as the expression that wraps it', 6)
+                   're-assignment (coercion / widening) of that value', 41)
+    ctx.rule('R9', 'a Ref built for a bound variable carries the same type as the expression that wraps it', 7)
     ctx.rule('R8', 'python _compute_type and scala typ of the same Table / Matrix IR node denote the same ordered field lists and keys (per component)', 247)
     ctx.rule('R10', 'the python struct primitives the typing rules are written with (tstruct._concat/_insert_field(s)/_drop_fields/_select_fields/_rename) '
                     'produce the field ORDER the comparison algebra and the engine assume (own evaluator of the definitions on sample structs)', 6)
